@@ -47,7 +47,7 @@ func init() {
 			{Name: "object store, version control", Kind: "stub", Note: "SimDisk, SimVCS"},
 			{Name: "reference verifier", Kind: "stub", Note: "refv: crypto/rsa + crypto/x509 only"},
 		},
-		Budget: core.StdBudget(900, 100*time.Second, 120000, 25*time.Minute),
+		Budget: core.StdBudget(900, 100*time.Second, 120000, 9*time.Minute),
 		Body:   runC03,
 	})
 }
